@@ -11,7 +11,6 @@ import (
 	"encoding/binary"
 	"errors"
 	"fmt"
-	"os"
 	"runtime"
 	"sort"
 	"strconv"
@@ -515,24 +514,12 @@ func c01GenOps(r *vRand, n int) []string {
 	nextID, nextF := 1, 1
 	// `st` = Shutdown with a context that has already ended. When it is the call that wins stopOnce it returns ctx.Err()
 	// at once while its goroutine goes on draining; any Shutdown call made after that returns nil immediately, before the
-	// drain is over (known finding F44). Scripts that contain such a later call are generated only when the leg sets
-	// VERIF_C01_F44=1 (checks/C01.json), i.e. once F44 is listed in known-findings.json; without it a script makes no
-	// Shutdown call after a winning `st` (the drain after the error return is exercised all the same).
-	f44 := os.Getenv("VERIF_C01_F44") == "1"
-	sdCalled, noMoreSd := false, false
+	// drain is over (known finding F47).
 	shutdownOp := func() (string, bool) {
-		if noMoreSd {
-			return "", false
-		}
-		op := "s"
 		if r.Intn(4) == 0 {
-			op = "st"
-			if !sdCalled && !f44 {
-				noMoreSd = true
-			}
+			return "st", true
 		}
-		sdCalled = true
-		return op, true
+		return "s", true
 	}
 	for i := 0; i < n; i++ {
 		switch k := r.Intn(20); {
@@ -728,6 +715,33 @@ func c01Watch(exp *c01HistExp, bsp *batchSpanProcessor, tag string, f func()) bo
 	}
 }
 
+// c01HistShutdown makes one Shutdown call and stamps its return. Stamps are made after the call has returned, so two calls
+// that return at almost the same moment may be stamped in either order; the oracle reads "a nil return after an error
+// return" as known finding F47, so an error return must not be stamped later than a nil return that really followed it:
+// a call with a context that may end counts as pending until its SR- is stamped (or until it has returned nil), and a
+// call that returned nil waits (bounded) for the pending ones before it stamps SR+. Delaying a return stamp is sound
+// (returns are stamped no earlier than they happen).
+func c01HistShutdown(exp *c01HistExp, bsp *batchSpanProcessor, ctx context.Context, mayExpire bool, pending *atomic.Int32) {
+	if mayExpire {
+		pending.Add(1)
+	}
+	err := bsp.Shutdown(ctx)
+	if err != nil {
+		exp.stamp("SR-")
+		if mayExpire {
+			pending.Add(-1)
+		}
+		return
+	}
+	if mayExpire {
+		pending.Add(-1)
+	}
+	for i := 0; i < 2000 && pending.Load() > 0; i++ {
+		time.Sleep(time.Millisecond)
+	}
+	exp.stamp("SR+")
+}
+
 func c01OneHist(seed uint64) string {
 	r := &vRand{s: seed}
 	capQ := 1 + r.Intn(6)
@@ -800,6 +814,7 @@ func c01OneHist(seed uint64) string {
 			})
 		}(f)
 	}
+	var sdErrPending atomic.Int32
 	nsd := 0
 	if withSD {
 		nsd = 1 + r.Intn(3) // several concurrent Shutdown callers: one wins stopOnce, the others wait for it
@@ -807,18 +822,27 @@ func c01OneHist(seed uint64) string {
 	for k := 0; k < nsd; k++ {
 		wg.Add(1)
 		delay := time.Duration(r.Intn(600)) * time.Microsecond
+		// some Shutdown calls get a context that has already ended (mode 0) or that ends after 0..300 µs (mode 1): if such a
+		// call wins stopOnce and its context ends before the drain is over it returns ctx.Err() (event SR-) while its goroutine
+		// goes on; a call that does not win waits in Once.Do regardless of its context
+		mode := r.Intn(5)
+		tmo := time.Duration(r.Intn(300)) * time.Microsecond
 		go func() {
 			defer wg.Done()
 			time.Sleep(delay)
+			ctx := context.Background()
+			switch mode {
+			case 0:
+				c, cancel := context.WithCancel(ctx)
+				cancel()
+				ctx = c
+			case 1:
+				c, cancel := context.WithTimeout(ctx, tmo)
+				defer cancel()
+				ctx = c
+			}
 			exp.stamp("SC")
-			c01Watch(exp, bsp, "HS", func() {
-				err := bsp.Shutdown(context.Background())
-				if err == nil {
-					exp.stamp("SR+")
-				} else {
-					exp.stamp("SR-")
-				}
-			})
+			c01Watch(exp, bsp, "HS", func() { c01HistShutdown(exp, bsp, ctx, mode <= 1, &sdErrPending) })
 		}()
 	}
 	wg.Wait()
@@ -834,11 +858,12 @@ func c01OneHist(seed uint64) string {
 		})
 	}
 	exp.stamp("SC")
-	c01Watch(exp, bsp, "HS", func() {
-		if bsp.Shutdown(context.Background()) == nil {
-			exp.stamp("SR+")
-		}
-	})
+	c01Watch(exp, bsp, "HS", func() { c01HistShutdown(exp, bsp, context.Background(), false, &sdErrPending) })
+	// a Shutdown call whose context ended has left its goroutine draining: wait until the exporter has been shut down, so
+	// that the history is complete (and no goroutine of this processor outlives the test)
+	for i := 0; i < 3000 && !exp.shutDone.Load(); i++ {
+		time.Sleep(time.Millisecond)
+	}
 	// unblock leaked producers / flushes (queue full after the worker exited)
 	for i := 0; i < 256; i++ {
 		select {
